@@ -318,3 +318,15 @@ func (w *world) buildMatrixFixture(variant int, r *rand.Rand) *fixture {
 	fx.Root["sub-adm-exp"] = w.newToken(fx, "MRKtkrootsubadmexp", "", true, []string{"admin"}, -2*time.Hour, 0, "root-sub-adm-exp")
 	return fx
 }
+
+// newAdminToken creates a valid administrator token outside any fixture bookkeeping.
+func (w *world) newAdminToken(name, group string, sub bool) {
+	e := time.Now().Add(24 * time.Hour)
+	user := "MRKtokuser" + name[3:]
+	w.tokMu.Lock()
+	_, err := token.Update(&token.Stateful{Token: name, Group: group, IncludeSubgroups: sub, Username: &user, Permissions: []string{"admin"}, Expires: &e}, "")
+	w.tokMu.Unlock()
+	if err != nil {
+		w.run.Inconclusive("harness setup: token.Update failed: " + err.Error())
+	}
+}
